@@ -90,7 +90,7 @@ type C14Case struct {
 func genC14(seed uint64, r *Rng, idx, vecs int) *C14Case {
 	graph := idx / vecs
 	gr := NewRng(seed, strSeed("C14-graph"), uint64(graph))
-	cs := &C14Case{}
+	cs := &C14Case{Cfg: genCfg(gr.Fork(71), 0)}
 	depth := gr.Range(1, 3)
 	dirs := []string{}
 	for i := 0; i < depth; i++ {
@@ -315,6 +315,7 @@ type c14Run struct {
 func (x *c14Run) abs(rel string) string { return filepath.Join(x.rootDir, rel) }
 
 func c14Setup(cs *C14Case, scratch string, tag string) (*c14Run, Res) {
+	cs.Cfg.apply()
 	wrapIncludes = true
 	x := &c14Run{cs: cs, onDisk: map[string]string{}, cache: map[string]string{}, special: map[string]int{}}
 	x.dir = filepath.Join(scratch, "fsroot", fmt.Sprintf("p%d", os.Getpid()), tag)
